@@ -409,9 +409,32 @@ def serde_skip_inverse(rule, F, ty, reviewed=None):
     if not rule.anchor(a, ty + " (ast)"):
         return 0
     n = 0
+    # a container-level #[serde(default)] fills every missing member from `<ty as Default>::default()` instead of the member type's own
+    # default: what it puts there must be the value the writer omitted (None / empty), or the reader invents a value (e.g. `now`)
+    cattrs = " ".join(a.get("attrs") or [])
+    cdef = None
+    if re.search(r"serde\s*\((?:[^()]|\([^()]*\))*\bdefault\b(?!\s*=)", cattrs):
+        dfn = "<%s as core::default::Default>::default" % ty
+        if F.hir(dfn) is not None and not F.derived_trait_of(dfn):
+            import sym as _sym
+            try:
+                ps_ = [q for q in _sym.Evaluator(F).explore(dfn) if q.complete]
+            except (_sym.Abort, _sym.TooManyPaths):
+                ps_ = []
+            cdef = [q.ret for q in ps_ if isinstance(q.ret, _sym.St)]
+            if not cdef:
+                rule.fail((ty, "container-default", "not-evaluable"), "%s is #[serde(default)] and its hand-written Default could not be evaluated" % short(ty))
     for f in a.get("fields", []):
         attrs = " ".join(f["attrs"])
         m = re.search(r'skip_serializing_if\s*=\s*"([^"]+)"', attrs)
+        if m and cdef:
+            import sym as _sym
+            for st_ in cdef:
+                v_ = st_.f.get(f["name"])
+                t_ = _sym.term(v_) if v_ is not None else None
+                empty_ = t_ == ("ctor", "None") or (isinstance(v_, list) and not v_) or (isinstance(t_, tuple) and t_[:1] == ("call",) and re.search(r"::(new|default)$", t_[1]) and not t_[2])
+                rule.require(empty_, (ty, f["name"], "container-default"), "%s is #[serde(default)]: a missing `%s` (omitted by the writer when None / empty) is read back as %s, the value of %s::default()" % (
+                    short(ty), f["name"], _sym.fmt(t_)[:80] if t_ is not None else None, short(ty)))
         if not m:
             if re.search(r"\bskip_serializing\b", attrs):
                 rule.require("default" in attrs or f["ty"].replace(" ", "").startswith("Option<"), (ty, f["name"], "skip-without-default"), "%s.%s is never serialised but has no default" % (short(ty), f["name"]))
